@@ -1223,3 +1223,36 @@ pub mod c17free {
         b.0
     }
 }
+
+/// C04 E9 controls: classifying a value by comparing it with itself
+pub mod c04e9 {
+    pub enum Op { StrictEq { dst: u8, left: u8, right: u8 }, Plus { dst: u8, src: u8 }, Typeof { dst: u8, src: u8 }, LoadString { dst: u8, idx: u16 } }
+    pub struct B { pub code: Vec<Op>, pub next: u8 }
+    impl B {
+        pub fn emit(&mut self, op: Op) { self.code.push(op); }
+        pub fn alloc(&mut self) -> u8 { self.next += 1; self.next }
+    }
+    /// BAD: `+v === v`
+    pub fn bad_number_test(b: &mut B, value_reg: u8) -> u8 {
+        let n = b.alloc();
+        b.emit(Op::Plus { dst: n, src: value_reg });
+        b.emit(Op::StrictEq { dst: n, left: n, right: value_reg });
+        n
+    }
+    /// BAD: `v === v`
+    pub fn bad_self_test(b: &mut B, value_reg: u8) -> u8 {
+        let n = b.alloc();
+        let v = value_reg;
+        b.emit(Op::StrictEq { dst: n, left: v, right: value_reg });
+        n
+    }
+    /// GOOD: `typeof v === "number"`
+    pub fn good_number_test(b: &mut B, value_reg: u8) -> u8 {
+        let t = b.alloc();
+        let s = b.alloc();
+        b.emit(Op::Typeof { dst: t, src: value_reg });
+        b.emit(Op::LoadString { dst: s, idx: 0 });
+        b.emit(Op::StrictEq { dst: t, left: t, right: s });
+        t
+    }
+}
